@@ -6,12 +6,12 @@ use std::collections::BTreeSet;
 use std::path::{Path, PathBuf};
 
 #[derive(Clone, Debug)]
-struct C { tmp: u64, n: usize, c: usize, comp: Option<u32>, fail: u64, fail_at: usize, consume: usize, order: u64, obs_at: usize }
+struct C { tmp: u64, n: usize, c: usize, comp: Option<u32>, fail: u64, fail_at: usize, consume: usize, order: u64, obs_at: usize, border: u64 }
 
 fn enc(c: &C) -> Vec<String> {
     let mut v = vec![c.tmp.to_string(), c.n.to_string(), c.c.to_string()];
     match c.comp { None => v.push("0".into()), Some(l) => { v.push("1".into()); v.push(l.to_string()); } }
-    v.extend([c.fail.to_string(), c.fail_at.to_string(), c.consume.to_string(), c.order.to_string(), c.obs_at.to_string()]);
+    v.extend([c.fail.to_string(), c.fail_at.to_string(), c.consume.to_string(), c.order.to_string(), c.obs_at.to_string(), c.border.to_string()]);
     v
 }
 fn dec(t: &[String]) -> Option<C> {
@@ -19,7 +19,7 @@ fn dec(t: &[String]) -> Option<C> {
     let mut n = || -> Option<u64> { it.next()?.parse().ok() };
     let tmp = n()?; let nn = n()? as usize; let c = n()? as usize;
     let comp = if n()? != 0 { Some(n()? as u32) } else { None };
-    Some(C { tmp, n: nn, c, comp, fail: n()?, fail_at: n()? as usize, consume: n()? as usize, order: n()?, obs_at: n()? as usize })
+    Some(C { tmp, n: nn, c, comp, fail: n()?, fail_at: n()? as usize, consume: n()? as usize, order: n()?, obs_at: n()? as usize, border: n().unwrap_or(0) })
 }
 fn valid(c: &C) -> bool { c.n.div_ceil(c.c.max(1)) <= 150 && c.obs_at < c.n.max(1) && (c.fail != 1 || c.obs_at < c.fail_at) }
 
@@ -57,14 +57,24 @@ fn child(t: &[String]) -> String {
     let (d, other) = if c.tmp == 1 { (explicit.clone(), tdir.clone()) } else { (tdir.clone(), explicit.clone()) };
     let base0 = listing(&d);
     let other0 = count_recursive(&other);
-    let mut b = ExternalSorterBuilder::new().with_chunk_size(c.c).num_threads(2);
-    if let Some(l) = c.comp { b = b.with_compression(l); }
-    if c.tmp == 1 { b = b.with_tmp_dir(&d); }
+    // the builder's setters are applied in the order given by the case (a permutation index): the
+    // configuration must not depend on the order of the calls
+    let mut b = ExternalSorterBuilder::new();
+    for k in super::common::permutation4(c.border) {
+        b = match k {
+            0 => b.with_chunk_size(c.c),
+            1 => b.num_threads(2),
+            2 => if let Some(l) = c.comp { b.with_compression(l) } else { b },
+            _ => if c.tmp == 1 { b.with_tmp_dir(&d) } else { b },
+        };
+    }
     let sorter = match b.build() { Ok(s) => s, Err(_) => return "abort".into() };
     let after_build = listing(&d);
     let new1: Vec<&(String, bool)> = after_build.difference(&base0).collect();
     let new_dirs = new1.iter().filter(|x| x.1).count();
     let new_files = new1.len() - new_dirs;
+    let other_after_build = count_recursive(&other).abs_diff(other0);
+    let other_during = std::cell::Cell::new(0usize);
 
     let during = std::cell::Cell::new(None::<(usize, usize, usize)>);
     let calls = std::sync::atomic::AtomicUsize::new(0);
@@ -75,6 +85,7 @@ fn child(t: &[String]) -> String {
             let top: Vec<&(String, bool)> = now.difference(&base0).collect();
             let inside: usize = top.iter().map(|x| count_recursive(&d.join(&x.0))).sum();
             during.set(Some((top.len(), inside, fds_under(&d))));
+            other_during.set(count_recursive(&other).abs_diff(other0));
         }
         if c.fail == 3 && i == c.fail_at {
             // exhaust the descriptor table: the next chunk file cannot be created
@@ -116,7 +127,8 @@ fn child(t: &[String]) -> String {
     let after_missing = base0.difference(&fin).count();
     let other_new = count_recursive(&other).abs_diff(other0);
     let (taken, top, inside, fds) = match during.get() { Some((a, b, f)) => (1, a, b, f), None => (0, 0, 0, 0) };
-    format!("{} {} {} {} {} {} {} {} {} {} {} {}", base0.len(), new_dirs, new_files, taken, top, inside, fds, after_new, after_missing, other_new, result, yielded)
+    let other_while_alive = other_after_build.max(other_during.get());
+    format!("{} {} {} {} {} {} {} {} {} {} {} {} {}", base0.len(), new_dirs, new_files, taken, top, inside, fds, after_new, after_missing, other_new, result, yielded, other_while_alive)
 }
 
 static CASE_NO: std::sync::atomic::AtomicUsize = std::sync::atomic::AtomicUsize::new(0);
@@ -152,7 +164,7 @@ fn gen(rng: &mut Rng, tier: Tier) -> Vec<Case> {
         let obs_at = (c_size * rng.range(1, 2) as usize).min(n - 1);
         let fail_at = match fail { 1 => rng.range(obs_at as u64 + 1, n as u64 + 3) as usize, 2 => rng.below(3 * n as u64) as usize, 3 => obs_at, _ => 0 };
         let c = C { tmp: rng.below(2), n, c: c_size, comp: if rng.chance(1, 3) { Some(*rng.pick(&[0u32, 1, 9])) } else { None }, fail, fail_at,
-            consume: match rng.below(4) { 0 => 0, 1 => n + 5, _ => rng.below(n as u64) as usize }, order: rng.below(2), obs_at };
+            consume: match rng.below(4) { 0 => 0, 1 => n + 5, _ => rng.below(n as u64) as usize }, order: rng.below(2), obs_at, border: rng.below(24) };
         if valid(&c) { out.push(Case::new("lifetime", enc(&c))); }
     }
     out
@@ -161,7 +173,7 @@ fn gen(rng: &mut Rng, tier: Tier) -> Vec<Case> {
 pub fn prop() -> PropDef {
     PropDef {
         id: "C15",
-        rule: "corpus, then lifetime scripts run in a child process whose TMPDIR is a fresh directory: explicit or default tmp dir (both pre-populated with a file and a sub-directory), inputs of c+1..8c records for chunk sizes c in {1,2,3,10,50}, with or without compression; the input iterator snapshots the directory (and /proc/self/fd) after at least one chunk exists; then either a normal sort followed by draining / dropping after k items / never consuming, with the iterator dropped before or after the sorter, or a panic raised by the input iterator at item j, a panic raised by the comparator at its m-th call, or sort_by returning an error (descriptor limit lowered mid-sort); listing compared before build, after build, during the sort and after the drops. Non-trivial: the during-snapshot was taken with >= 1 chunk created. Distinct = distinct input token sequence.",
+        rule: "corpus, then lifetime scripts run in a child process whose TMPDIR is a fresh directory: explicit or default tmp dir (both pre-populated with a file and a sub-directory), the builder's four setters called in every order, inputs of c+1..8c records for chunk sizes c in {1,2,3,10,50}, with or without compression; the input iterator snapshots the directory (and /proc/self/fd) after at least one chunk exists; then either a normal sort followed by draining / dropping after k items / never consuming, with the iterator dropped before or after the sorter, or a panic raised by the input iterator at item j, a panic raised by the comparator at its m-th call, or sort_by returning an error (descriptor limit lowered mid-sort); listing compared before build, after build, during the sort and after the drops. Non-trivial: the during-snapshot was taken with >= 1 chunk created. Distinct = distinct input token sequence.",
         observable: "entries created under the configured directory by build(), during sort_by (top level, inside the temporary directory), after the drops (new and missing entries), entries created under the other temporary directory, result of sort_by",
         gen, exec, shrink, child: Some(child),
     }
